@@ -603,3 +603,56 @@ def rhs_safety(run):
                     if any(nm.startswith("SUM") for nm in consts_of(o.goal)):
                         continue  # sums: callee contracts (gbslib)
                     run.prove(f"{t}/safety.{o.name}#{k}", FN_RHS, base + list(o.pc) + list(p.lazy), o.goal, structural=True, kind="safety", detail=f"{o.meta.get('what', o.name)}: {E.brief(o.goal, 140)}")
+
+
+@guarded
+def c04_rhs_frame(run):
+    """Frame indifference of the glue in eval_rhs: in a rotated frame the solver receives the rotated strain rate and velocity
+    gradient (same normalisation: the maximum principal strain rate is a rotation invariant, A-EIG), the co-rotated
+    orientations and the same fractions; dF co-rotates."""
+    for regime in (4, 6):
+        tag = f"C04/eval_rhs[regime={regime}]"
+        h1, ex1 = explore(run, tag + "/run1", regime=regime, assemblage=(0, 1), steps_choices=(1,))
+        h2, ex2 = explore(run, tag + "/run2", regime=regime, assemblage=(0, 1), steps_choices=(1,), frame=True)
+        if ex1 is None or ex2 is None:
+            continue
+        if len(ex1.paths) != len(ex2.paths):
+            run.undecided(tag, FN, "different numbers of paths in the rotated frame")
+            continue
+        Q = h2.Q
+        for pi, (p1, p2) in enumerate(zip(ex1.paths, ex2.paths)):
+            t1_, t2_ = p1.value, p2.value
+            t = f"{tag}/path{pi}"
+            if t1_.exc is not None or t2_.exc is not None or len(t1_.deriv) != len(t2_.deriv):
+                run.undecided(t, FN, "exception or different call structure in the rotated frame")
+                continue
+            H = list(ex2.ctx.hyps) + list(p1.pc) + list(p2.pc) + list(p1.lazy) + list(p2.lazy) + [G >= 0, G < h1.n.z]
+            for k, (d1, d2) in enumerate(zip(t1_.deriv, t2_.deriv)):
+                for key in ("strain_rate", "velocity_gradient"):
+                    want = S._matmul(Q, S._matmul(np.asarray(d1[key], dtype=object).view(S.SymArray), Q.T))
+                    goals = [E.eq_cleared(S.zz(a), S.zz(b)) for a, b in zip(np.asarray(d2[key], dtype=object).flat, np.asarray(want, dtype=object).flat)]
+                    run.prove(f"{t}/rhs{k}/solver argument {key} is the rotated one (same normalisation)", FN_RHS, H, z3.And(*goals), structural=True)
+                same = all(_same_val(d1[key], d2[key]) for key in d1 if key not in ("strain_rate", "velocity_gradient", "deformation_gradient_spin", "orientations", "fractions"))
+                run.exact(f"{t}/rhs{k}/other solver arguments identical", FN_RHS, same, "regime, phase, fabric, n_grains, parameters, volume fraction")
+                with S.quiet():
+                    o1, o2 = d1["orientations"].fn(G), d2["orientations"].fn(G)
+                    f1, f2 = d1["fractions"].fn(G), d2["fractions"].fn(G)
+                    raw1 = LA.larr(f"yO{k + 1}", h1.n, (3, 3)).fn(G)
+                rot_raw = S._matmul(raw1, Q.T)
+                # abstract the rotated raw entries by fresh symbols rr_ij (== (raw Q^T)_ij) so that the clip conditions are linear
+                rr = symarr("rr!", (3, 3))
+                subs = [(S.zz(e), S.zz(r)) for e, r in zip(np.asarray(rot_raw, dtype=object).flat, rr.flat)]
+                inrange = [z3.And(S.zz(v) >= -1, S.zz(v) <= 1) for v in list(np.asarray(raw1, dtype=object).flat) + list(rr.flat)]
+                want = S._matmul(o1, Q.T)
+                goals = [z3.substitute(S.zz(a), *subs) == z3.substitute(S.zz(b), *subs) for a, b in zip(np.asarray(o2, dtype=object).flat, np.asarray(want, dtype=object).flat)]
+                inrange += [S.zz(e) == S.zz(r) for e, r in zip(np.asarray(rot_raw, dtype=object).flat, rr.flat)]  # definition of rr
+                run.prove(f"{t}/rhs{k}/orientations handed to the solver co-rotate (entries within [-1,1] in both frames)", FN_RHS, list(ex2.ctx.hyps) + [c_ for c_ in p2.pc if "q_a" in str(c_)[:400]] + inrange, z3.And(*goals), structural=True)
+                run.prove(f"{t}/rhs{k}/fractions handed to the solver unchanged", FN_RHS, H, E.eq_cleared(S.zz(f1), S.zz(f2)), structural=True)
+            for k, ((tk1, y1, o1, x1), (tk2, y2, o2, x2)) in enumerate(zip(t1_.rhs, t2_.rhs)):
+                if o1 is None or o2 is None:
+                    continue
+                a = np.asarray(block(o1, 0), dtype=object).reshape(3, 3).view(S.SymArray)
+                b = np.asarray(block(o2, 0), dtype=object).reshape(3, 3)
+                want = S._matmul(Q, a)
+                goals = [E.eq_cleared(S.zz(u), S.zz(v)) for u, v in zip(b.flat, np.asarray(want, dtype=object).flat)]
+                run.prove(f"{t}/rhs{k}/dF co-rotates: (Q L Q^T)(Q F) == Q (L F)", FN_RHS, H, z3.And(*goals), structural=True)
